@@ -476,7 +476,7 @@ pub fn replay_in_child(id: &str, case: &Value) -> Result<(), Fail> {
     ))
 }
 
-pub fn driver_main(def: &CheckDef, tier: Tier, seed: u64) -> i32 {
+pub fn driver_main(def: &CheckDef, tier: Tier, seed: u64, evidence_out: Option<String>) -> i32 {
     let t0 = Instant::now();
     let id = def.id;
     let known: Vec<KnownFinding> = load_known().into_iter().filter(|k| k.property == id).collect();
@@ -709,7 +709,8 @@ pub fn driver_main(def: &CheckDef, tier: Tier, seed: u64) -> i32 {
         "assumptions": def.assumptions, "wall_s": wall, "violations": violations_n,
     });
     let _ = std::fs::create_dir_all(format!("{VERIF}/evidence"));
-    let mut f = std::fs::File::create(format!("{VERIF}/evidence/{id}.json")).expect("evidence file");
+    let ev_path = evidence_out.unwrap_or_else(|| format!("{VERIF}/evidence/{id}.json"));
+    let mut f = std::fs::File::create(ev_path).expect("evidence file");
     f.write_all(serde_json::to_string_pretty(&ev).unwrap().as_bytes()).unwrap();
     println!(
         "property={id} tier={} seed={seed} evaluations={merged_evals} distinct_nontrivial={} violations={violations_n} exit={exit} wall={wall:.1}s",
